@@ -234,7 +234,14 @@ pub struct DateOffset {
 impl DateOffset {
     #[inline]
     pub fn apply(&self, mut date: NaiveDate) -> NaiveDate {
-        date += Duration::days(self.day_offset);
+        // Saturate to the bounds of representable dates if the offset is too big
+        date = Duration::try_days(self.day_offset)
+            .and_then(|offset| date.checked_add_signed(offset))
+            .unwrap_or(if self.day_offset < 0 {
+                NaiveDate::MIN
+            } else {
+                NaiveDate::MAX
+            });
 
         match self.wday_offset {
             WeekDayOffset::None => {}
@@ -243,16 +250,18 @@ impl DateOffset {
                     - target.days_since(Weekday::Mon))
                     % 7;
 
-                date -= Duration::days(diff.into());
-                debug_assert_eq!(date.weekday(), target);
+                date = date
+                    .checked_sub_signed(Duration::days(diff.into()))
+                    .unwrap_or(NaiveDate::MIN);
             }
             WeekDayOffset::Next(target) => {
                 let diff = (7 + target.days_since(Weekday::Mon)
                     - date.weekday().days_since(Weekday::Mon))
                     % 7;
 
-                date += Duration::days(diff.into());
-                debug_assert_eq!(date.weekday(), target);
+                date = date
+                    .checked_add_signed(Duration::days(diff.into()))
+                    .unwrap_or(NaiveDate::MAX);
             }
         }
 
